@@ -1,0 +1,5 @@
+//go:build !verif
+
+package merge
+
+func verifFastPathAllowed() bool { return true }
